@@ -363,4 +363,115 @@ theorem slice_run_eq_pyslice (start stop step : Option Int) (hs : GoodStep step)
 example : sliceRun (mkSlice (some (-6)) (some 6) (some 2)) [10, 11, 12, 13, 14, 15, 16]
     = some (.ok [11, 13, 15]) := by decide
 
+/-! ### `Slice.fill_into` -/
+
+/-- **`fill_into` fills exactly `xs[start:stop:step]`** (non-negative arguments, `step ≥ 1`), when
+the flow `xs` is fed value by value until it ends or `LenaStopFill` is raised. -/
+theorem fill_into_eq (start : Nat) (stop : Option Nat) (step : Nat) (hs : 1 ≤ step) (xs : List α) :
+    (fillAll stop step (fillInit start) 0 xs).1
+      = pySlice xs (some (start : Int)) (stop.map Int.ofNat) step := by
+  rw [fillAll_values stop step hs xs start 0 _ (fillGood_init stop step start),
+    ← islice_eq_pySlice xs start stop step hs]
+  rfl
+
+/-- **`LenaStopFill` only when nothing later could be selected**: if it is raised while value number
+`i` is being filled, then `stop` is a number `st` and every selected index `start + k*step` that is
+`≥ i` is already `≥ st`, i.e. not selected. -/
+theorem stopfill_only_when_done (start : Nat) (stop : Option Nat) (step : Nat) (hs : 1 ≤ step)
+    (xs : List α) (i : Nat) (h : (fillAll stop step (fillInit start) 0 xs).2 = some i) :
+    ∃ st, stop = some st ∧ ∀ k, i ≤ start + k * step → st ≤ start + k * step := by
+  obtain ⟨st, k0, h1, h2, _, h4⟩ :=
+    fillAll_stop stop step hs xs start 0 _ (fillGood_init stop step start) i h
+  refine ⟨st, h1, ?_⟩
+  intro k hk
+  by_cases hkk : k0 ≤ k
+  · have := Nat.mul_le_mul_right step hkk
+    omega
+  · rcases h4 with rfl | h4
+    · omega
+    · have : k ≤ k0 - 1 := by omega
+      have := Nat.mul_le_mul_right step this
+      omega
+
+example : fillAll (some 6) 2 (fillInit 1) 0 [0, 1, 2, 3, 4, 5, 6, 7, 8] = ([1, 3, 5], some 6) := by decide
+example : fillAll (none : Option Nat) 3 (fillInit 0) 0 [0, 1, 2, 3, 4] = ([0, 3], none) := by decide
+
+/-! ### `RunningChunkBy` -/
+
+/-- **non-recursive characterisation of the sliding windows**: the `len − cs + 1` lists
+`xs[i : i+cs]`, and nothing when the flow is shorter than `cs` -/
+theorem windows_spec (cs : Nat) : ∀ (xs : List α),
+    windows cs xs = if xs.length < cs then []
+      else (List.range (xs.length - cs + 1)).map (fun i => (xs.drop i).take cs)
+  | [] => by
+    by_cases h : cs = 0
+    · subst h; simp [windows]
+    · have h1 : (cs == 0) = false := by simp [h]
+      have h2 : 0 < cs := by omega
+      simp [windows, h1, h2]
+  | x :: xs => by
+    rw [windows]
+    by_cases h : (x :: xs).length < cs
+    · simp only [h, if_true]
+    · simp only [h, if_false]
+      rw [windows_spec cs xs]
+      simp only [List.length_cons] at h ⊢
+      by_cases h' : xs.length < cs
+      · have : xs.length + 1 - cs + 1 = 1 := by omega
+        simp [h', this]
+      · have : xs.length + 1 - cs + 1 = (xs.length - cs + 1) + 1 := by omega
+        rw [if_neg h', this, List.range_succ_eq_map (n := xs.length - cs + 1)]
+        simp only [List.map_cons, List.map_map, List.drop_zero]
+        congr 1
+
+theorem windows_short (cs : Nat) (xs : List α) (h : xs.length < cs) : windows cs xs = [] := by
+  rw [windows_spec, if_pos h]
+
+/-- the loop of `RunningChunkBy.run` once the deque is full -/
+theorem chunkLoop_spec (cs : Nat) (hcs : 1 ≤ cs) : ∀ (rest chunk : List α), chunk.length = cs →
+    chunkLoop cs chunk rest = windows cs (chunk ++ rest)
+  | [], chunk, hl => by
+    cases chunk with
+    | nil => simp at hl; omega
+    | cons c t =>
+      simp only [List.length_cons] at hl
+      have ht : windows cs t = [] := windows_short cs t (by omega)
+      have hlen : ¬ ((c :: t).length < cs) := by simp; omega
+      rw [List.append_nil, windows, if_neg hlen, ht, List.take_of_length_le (by simp; omega)]
+      simp [chunkLoop, hl]
+  | v :: r, chunk, hl => by
+    cases chunk with
+    | nil => simp at hl; omega
+    | cons c t =>
+      simp only [List.length_cons] at hl
+      have hd : dqAppend cs (c :: t) v = t ++ [v] := by
+        have : t.length + 1 + 1 - cs = 1 := by omega
+        simp [dqAppend, this]
+      have hlen : ¬ ((c :: (t ++ v :: r)).length < cs) := by simp; omega
+      have htake : (c :: (t ++ v :: r)).take cs = c :: t := by
+        rw [← List.cons_append, List.take_append_of_le_length (by simp; omega),
+          List.take_of_length_le (by simp; omega)]
+      rw [chunkLoop, hd, chunkLoop_spec cs hcs r (t ++ [v]) (by simp; omega)]
+      rw [List.cons_append, windows, if_neg hlen, htake]
+      simp
+
+/-- **`RunningChunkBy(cs).run(xs)` yields the sliding windows of size `cs`** (`cs ≥ 1`): `len − cs + 1`
+of them, none when the flow is shorter than `cs`. -/
+theorem chunks_are_windows (cs : Nat) (hcs : 1 ≤ cs) (xs : List α) :
+    runningChunkBy cs xs = windows cs xs := by
+  unfold runningChunkBy
+  have hdq : dqOfFlow cs (xs.take cs) = xs.take cs := by
+    rw [dqOfFlow_spec]
+    have : (xs.take cs).length - cs = 0 := by simp; omega
+    rw [this, List.drop_zero]
+  rw [hdq]
+  by_cases h : xs.length < cs
+  · rw [List.drop_eq_nil_of_le (by omega), List.take_of_length_le (by omega), windows_short cs xs h]
+    have : (xs.length == cs) = false := by simp; omega
+    simp [chunkLoop, this]
+  · rw [chunkLoop_spec cs hcs _ _ (by simp; omega), List.take_append_drop]
+
+example : runningChunkBy 3 [0, 1, 2, 3, 4] = [[0, 1, 2], [1, 2, 3], [2, 3, 4]] := by decide
+example : runningChunkBy 3 [0, 1] = [] := by decide
+
 end Lena.C17
